@@ -146,6 +146,12 @@ try:
 except ImportError:
     pass
 
+try:
+    import gen_fixedwalk
+    MODULES['FixedWalk'] = gen_fixedwalk.generate
+except ImportError:
+    pass
+
 def main():
     args = sys.argv[1:]
     repo = '/repo'
